@@ -737,6 +737,7 @@ func checkEmit(prop, tier string, seed int, updateLedger bool) int {
 		}
 	}
 	all := e.evalEmit(runs)
+	all = append(all, labelledContractObligations(prop, tier)...)
 	var owned []emitObl
 	for _, o := range all {
 		for _, p := range o.Props {
@@ -873,6 +874,43 @@ func slowest(obls []*Obligation, n int) []map[string]interface{} {
 			break
 		}
 		out = append(out, map[string]interface{}{"obligation": cp[i].Name, "secs": cp[i].Secs, "backend": cp[i].Backend, "instances": len(cp[i].Instances)})
+	}
+	return out
+}
+
+// labelledContractObligations: written postconditions labelled [<prop>:...] on generator functions
+// (e.g. C07: the C++ emitter marks every referenced packet as generated before it emits the struct that
+// uses it) are verified by the path executor in a second engine and reported with the EMIT obligations
+// of that property.
+func labelledContractObligations(prop, tier string) []emitObl {
+	targets := map[string]*regexp.Regexp{
+		"C07": regexp.MustCompile(`parser\.CppGenerator\)\.generateCodeForPacket$`),
+	}
+	re, ok := targets[prop]
+	if !ok {
+		return nil
+	}
+	e := newEngine()
+	e.runInits()
+	spec := &PropSpec{ID: prop, Kinds: []string{"POST", "PRE", "INV", "SAFE"}, FuncMatch: re,
+		// the labelled postconditions and the loop invariants they rest on
+		Own: func(o *Obligation) bool { return strings.Contains(o.Name, prop+":") || o.Kind == "INV" }}
+	res := runProperty(e, spec, tier)
+	var out []emitObl
+	for _, fr := range res.reports {
+		if fr.Err != "" || (fr.Paths == 0 && fr.Exits == 0) {
+			out = append(out, emitObl{Name: fr.Func + "#SUBSET", Props: []string{prop}, OK: false, Detail: "function cannot be verified: " + fr.Err})
+		}
+	}
+	for _, o := range res.owned {
+		d := o.Desc
+		if o.Status != "proved" && o.Fail != nil {
+			d += "; verdict " + o.Fail.Res.Verdict + " by " + o.Fail.Res.Backend + "; goal " + truncate(o.Fail.Goal.String(), 1500)
+		}
+		out = append(out, emitObl{Name: o.Name, Props: []string{prop}, OK: o.Status == "proved", Detail: d})
+	}
+	if len(res.owned) == 0 {
+		out = append(out, emitObl{Name: "POST:" + prop + ":contracts-present", Props: []string{prop}, OK: false, Detail: "no labelled postcondition of " + prop + " was generated"})
 	}
 	return out
 }
